@@ -724,9 +724,19 @@ class CSSStyleSheet(css_parser.stylesheets.StyleSheet):
             if not (rule.prefix in self.namespaces and
                     self.namespaces[rule.prefix] == rule.namespaceURI):
                 # no doublettes
+                oldrules = list(self._cssRules)
                 self._cssRules.insert(index, rule)
                 if _clean:
-                    self._cleanNamespaces()
+                    try:
+                        self._cleanNamespaces()
+                    except xml.dom.NoModificationAllowedErr:
+                        # the new rule would displace a namespace which is
+                        # still in use: reject it and undo what was done
+                        del self._cssRules[:]
+                        for r in oldrules:
+                            self._cssRules.insert(len(self._cssRules), r)
+                            r._parentStyleSheet = self
+                        raise
 
         # @variables
         elif rule.type == rule.VARIABLES_RULE:
